@@ -11,7 +11,7 @@ import json
 import vlib
 from checks import ledger_common as lc
 
-MODE = 5      # bit 0: reads vs specification, bit 2: strict reading (existence flags)
+MODE = 13     # bit 0: reads vs specification, bit 2: strict reading (existence flags), bit 3: stored code hash
 
 
 def nontrivial(group):
@@ -64,6 +64,8 @@ def run(ctx):
         m = 120 if ctx.quick else 3000
         for i in range(m):
             groups.append([lc.sprinkle_bad_ops(r, lc.gen_soup(r, r.randrange(4, 50)))])
+        # 3b. scenario templates (interleavings the random streams reach only rarely)
+        groups += [g for g in lc.scenario_groups(r, 5 if ctx.quick else 60) if len(g) == 1]
         # 4. exhaustive short sequences (thorough tier)
         if not ctx.quick:
             groups += exhaustive_short(3)
